@@ -13,7 +13,9 @@ CONSTANTS Profile, MaxLen, Shard, NShards
 \* a piece is one or two argv elements
 Rec == {<<"-includecfg=debug.h">>, <<"-isystemopt/x=y/include">>, <<"-include", "a=b.h">>, <<"-DEMPTY=">>, <<"-D", "EMPTY2=">>, <<"-DA">>, <<"-D", "B">>, <<"-DC=1">>, <<"-D", "E=x=y">>, <<"-DS=a b">>, <<"-DQ=\"q\"">>, <<"-DF(x)=x">>,
         <<"-Iinc">>, <<"-I", "inc2">>, <<"-I", "dir with space">>, <<"-I", "-dashdir">>, <<"-I.">>,
-        <<"-isystem", "sys">>, <<"-isystemsys2">>, <<"-include", "pre.h">>, <<"-includepre2.h">>}
+        <<"-isystem", "sys">>, <<"-isystemsys2">>, <<"-include", "pre.h">>, <<"-includepre2.h">>,
+        \* values spelled like options that are otherwise ignored
+        <<"-I", "-c">>, <<"-include", "-g3">>, <<"-isystem", "-O2">>}
 Unk == {<<"-g3">>, <<"-ggdb">>, <<"-g">>, <<"-O">>, <<"-O2">>, <<"-Ofast">>, <<"-Wall">>, <<"-std=c11">>, <<"-MF", "dep.d">>,
         <<"-MD">>, <<"-fPIC">>, <<"-ccbin", "g++">>, <<"-x", "c++">>, <<"-march=native">>, <<"-cxx-isystem", "cxxdir">>,
         <<"@rsp">>, <<"-Wl,-rpath,/x">>, <<"-c">>, <<"-o", "out.o">>, <<"-oout2.o">>, <<"-pthread">>, <<"-fopenmp-simd">>,
@@ -22,7 +24,7 @@ Unk == {<<"-g3">>, <<"-ggdb">>, <<"-g">>, <<"-O">>, <<"-O2">>, <<"-Ofast">>, <<"
         <<"-iquote", "qdir">>, <<"-idirafter", "adir">>, <<"-nostdinc">>, <<"-Dz">>}
 Pieces == CASE Profile = "small" -> {<<"-includecfg=debug.h">>, <<"-isystemopt/x=y/include">>, <<"-DEMPTY=">>, <<"-DS=a b">>, <<"-DA">>, <<"-D", "B">>, <<"-Iinc">>, <<"-I", "inc2">>, <<"-isystem", "sys">>, <<"-include", "pre.h">>,
                                      <<"-g3">>, <<"-O2">>, <<"-MF", "dep.d">>, <<"-ccbin", "g++">>, <<"-O">>, <<"-c">>, <<"-o", "out.o">>,
-                                     <<"-isystemsys2">>, <<"-includepre2.h">>, <<"-Wall">>, <<"-x", "c++">>, <<"-ggdb">>}
+                                     <<"-isystemsys2">>, <<"-includepre2.h">>, <<"-Wall">>, <<"-x", "c++">>, <<"-ggdb">>, <<"-I", "-c">>, <<"-include", "-g3">>}
             [] OTHER -> Rec \cup Unk
 
 VARIABLES argv, n, done
